@@ -17,6 +17,8 @@ void verif_note(const char* msg);
 std::uint64_t verif_concretize(std::uint64_t v, std::uint64_t cap);  // exhaustive enumeration (forks), cap = max distinct values
 int verif_is_symbolic(std::uint64_t v);
 void verif_abort(void);
+// uninterpreted function of the input bytes (Engine S only; the native replay never reaches it because redirects exist only in the engine)
+void verif_uf(const char* name, const void* in, std::size_t in_len, void* out, std::size_t out_len);
 // known-finding region directive (DESIGN.md 3): excluded by assumption in the main run, assumed in the finding run
 bool verif_known(const char* finding_id, bool in_region);
 }
